@@ -311,8 +311,8 @@ class C20:
         if rec.get('survived_fault'):
             self.malformed_fired = True     # layer B: a corrupted body got through the client as an answer
             self.lied = True
-            if rec['survived_fault'] in ('status_500', 'status_429', 'status_404', 'status_503_html', 'timeout',
-                                         'conn_error'):
+            from simkit.httpsim import HARD
+            if rec['survived_fault'] in HARD:
                 # a provider whose HTTP exchange failed outright has not answered: the client has to raise
                 self.w.violation('http_failure_passed_on_as_answer',
                                  {'method': m, 'flavor': rec['survived_fault'], 'client': rec.get('client')},
@@ -522,6 +522,9 @@ class C20:
         e0 = len(EXECS)
         srv.results_cache_n = 0
         self._pre_model = None
+        self._pre_addr = None
+        if name == 'getutxos':
+            self._pre_addr = ('set', self.cached_address_row(srv, args[0]))
         if name == 'gettransactions' and kwargs.get('after_txid'):
             self._pre_model = ('set', self.cache_model_history(srv, args[0], kwargs['after_txid'],
                                                                kwargs.get('limit', S.MAX_TRANSACTIONS)),
@@ -661,6 +664,18 @@ class C20:
                             (u['txid'][:16], u['output_n'], sorted(map(str, self.facts_spent.get((u['txid'], u['output_n']), [])))))
             if u['address'] != args[0]:
                 w.violation('fabricated_utxos', sig, 'cached utxo for another address')
+        # what getutxos records about the address is the summary of an answer: if the call changed the cached balance,
+        # the new figure is the sum of the list it has just returned (it is served by getbalance later)
+        if self._pre_addr and not self.poisoned() and all(isinstance(u, dict) and 'value' in u for u in ret):
+            before, after = self._pre_addr[1], self.cached_address_row(srv, args[0])
+            if after is not None and after != before and after[0] is not None and \
+                    'unreadable' not in (after[0], (before or (None,))[0]):
+                w.probe('getutxos_recorded_address_balance')
+                total = sum(u['value'] for u in ret)
+                if after[0] != total or (after[1] is not None and after[1] != len(ret)):
+                    w.violation('stored_balance_not_the_answer', sig,
+                                'getutxos(%s) returned %d utxos worth %d (cache part %d) but recorded balance %r / %r utxos' %
+                                (args[0], len(ret), total, n_cache, after[0], after[1]))
 
     # gettransaction
     def tx_matches_fact(self, t, allow_spent_history=True):
@@ -826,6 +841,16 @@ class C20:
         w.violation('cache_infidelity', {'method': 'gettransactions', 'stage': 'cache_part_after_txid', 'cause': cause},
                     'after_txid=%s: the cache served %s, the stored history continues %s' %
                     (after_txid[:8], [x[:8] for x in part], [x[:8] for x in want]))
+
+    def cached_address_row(self, srv, address):
+        try:
+            con = sqlite3.connect('file:%s?mode=ro' % srv.cache_uri, uri=True, timeout=0.05)
+            try:
+                return con.execute('select balance, n_utxos from cache_address where address = ?', (address,)).fetchone()
+            finally:
+                con.close()
+        except Exception:
+            return ('unreadable',)
 
     def cached_ids_of(self, srv, address):
         try:
